@@ -1,4 +1,5 @@
 import JominiModel.Proofs.BinTapeDropped
+import JominiModel.Proofs.BinTapePairs
 /-
 C03, what the tape leaves out — with context.  Every iteration of the loop acts on the lexeme content
 of the tape by exactly one of four `Move`s (Spec/BinTapeLex.lean): `keep`, `eqAfterKey`, `ghost`,
@@ -8,6 +9,96 @@ as the one `odd` token of an only_empties rewrite.
 namespace Jomini.BinTape
 open Jomini
 
+
+/-! ### balance of good sequences; the token-level shape of an only_empties run -/
+
+def BTok.isStartB : BTok → Bool
+  | .array _ | .object _ => true
+  | _ => false
+def BTok.isEndB : BTok → Bool
+  | .end_ _ => true
+  | _ => false
+
+def starts (l : Tape) : Nat := (l.filter BTok.isStartB).length
+def ends (l : Tape) : Nat := (l.filter BTok.isEndB).length
+
+@[simp] theorem starts_append (a b : Tape) : starts (a ++ b) = starts a + starts b := by simp [starts]
+@[simp] theorem ends_append (a b : Tape) : ends (a ++ b) = ends a + ends b := by simp [ends]
+
+theorem plain_counts {x : BTok} (h : x.isPlain = true) : starts [x] = 0 ∧ ends [x] = 0 := by
+  cases x <;> simp [BTok.isPlain] at h <;> simp [starts, ends, BTok.isStartB, BTok.isEndB]
+
+mutual
+theorem GSeq.bal : ∀ {l : Tape}, GSeq l → starts l = ends l
+  | _, .nil => rfl
+  | _, .plain h hx => by
+    have := GSeq.bal h; have := plain_counts hx; simp; omega
+  | _, .cont h hc => by
+    have := GSeq.bal h; have := GCont.bal hc; simp; omega
+theorem GCont.bal : ∀ {c : Tape}, GCont c → starts c = ends c
+  | _, @GCont.arr inner e i h => by
+    have := GSeq.bal h
+    have e1 : BTok.array e :: (inner ++ [BTok.end_ i]) = [BTok.array e] ++ inner ++ [BTok.end_ i] := by simp
+    rw [e1]
+    have a1 : starts [BTok.array e] = 1 := rfl
+    have a2 : ends [BTok.array e] = 0 := rfl
+    have a3 : starts [BTok.end_ i] = 0 := rfl
+    have a4 : ends [BTok.end_ i] = 1 := rfl
+    simp only [starts_append, ends_append, a1, a2, a3, a4]; omega
+  | _, @GCont.obj inner ph e i h _ => by
+    have := Body.bal h
+    have e1 : BTok.object e :: (inner ++ [BTok.end_ i]) = [BTok.object e] ++ inner ++ [BTok.end_ i] := by simp
+    rw [e1]
+    have a1 : starts [BTok.object e] = 1 := rfl
+    have a2 : ends [BTok.object e] = 0 := rfl
+    have a3 : starts [BTok.end_ i] = 0 := rfl
+    have a4 : ends [BTok.end_ i] = 1 := rfl
+    simp only [starts_append, ends_append, a1, a2, a3, a4]; omega
+theorem Body.bal : ∀ {l : Tape} {ph : Phase}, Body l ph → starts l = ends l
+  | _, _, .nil => rfl
+  | _, _, .key h hk => by
+    have := Body.bal h; have := plain_counts (BTok.isKey_plain hk); simp; omega
+  | _, _, .valPlain h hv => by
+    have := Body.bal h; have := plain_counts (BTok.isVal_plain hv); simp; omega
+  | _, _, .valCont h hc => by
+    have := Body.bal h; have := GCont.bal hc; simp; omega
+  | _, _, .mixed h => by
+    have := Body.bal h; simp [starts, ends, BTok.isStartB, BTok.isEndB] at *; omega
+  | _, _, .afterPlain h hx => by
+    have := Body.bal h; have := plain_counts hx; simp; omega
+  | _, _, .afterCont h hc => by
+    have := Body.bal h; have := GCont.bal hc; simp; omega
+end
+
+/-- what the only_empties test accepts, token-wise: balanced `{}` pairs, then at most one more token -/
+theorem allEmptyPairs_tok : ∀ (l : Tape), allEmptyPairs l = true →
+    ∃ n, (flat l = pairsLex n ∧ l.length / 2 = n) ∨
+      (∃ l0 y, l = l0 ++ [y] ∧ flat l0 = pairsLex n ∧ starts l0 = ends l0 ∧ l.length / 2 = n)
+  | [], _ => ⟨0, Or.inl ⟨rfl, rfl⟩⟩
+  | [y], _ => ⟨0, Or.inr ⟨[], y, rfl, rfl, rfl, by simp⟩⟩
+  | a :: b :: rest, h => by
+    cases a <;> cases b <;> simp [allEmptyPairs] at h
+    rename_i ea eb
+    obtain ⟨n, hn⟩ := allEmptyPairs_tok rest h.2
+    refine ⟨n + 1, ?_⟩
+    rcases hn with ⟨h1, h2⟩ | ⟨l0, y, h1, h2, h3, h4⟩
+    · exact Or.inl ⟨by simp [h1, flatten, pairsLex], by simp; omega⟩
+    · subst h1
+      refine Or.inr ⟨BTok.array ea :: BTok.end_ eb :: l0, y, by simp, by simp [h2, flatten, pairsLex], ?_, by simp at h4 ⊢; omega⟩
+      have e1 : BTok.array ea :: BTok.end_ eb :: l0 = [BTok.array ea] ++ [BTok.end_ eb] ++ l0 := by simp
+      rw [e1]
+      have a1 : starts [BTok.array ea] = 1 := rfl
+      have a2 : ends [BTok.array ea] = 0 := rfl
+      have a3 : starts [BTok.end_ eb] = 0 := rfl
+      have a4 : ends [BTok.end_ eb] = 1 := rfl
+      simp only [starts_append, ends_append, a1, a2, a3, a4]; omega
+
+theorem plain_of_counts {y : BTok} (h : starts [y] = ends [y]) : y.isPlain = true := by
+  cases y
+  case array e => have h' : (1 : Nat) = 0 := h; omega
+  case object e => have h' : (1 : Nat) = 0 := h; omega
+  case end_ i => have h' : (0 : Nat) = 1 := h; omega
+  all_goals rfl
 
 /-- in `KeyValueSeparator` / `OpenSecond` the last tape token is a scalar standing for itself -/
 def LastLex (tape : Tape) (state : PState) : Prop :=
@@ -58,7 +149,8 @@ theorem allEmptyPairs_lex : ∀ (l : Tape), allEmptyPairs l = true →
 
 theorem equalArm_move {tape : Tape} {parent : Nat} {state : PState} {d dp : Bytes} {st' : St}
     (hr : readId dp = some (L.equal, d)) (h : equalArm tape parent state d = .ok st')
-    (hll : LastLex tape state) : StepMove ⟨tape, parent, state, dp⟩ st' := by
+    (hll : LastLex tape state) (ht : TInv tape parent state) (hg : GInv tape parent state) :
+    StepMove ⟨tape, parent, state, dp⟩ st' := by
   intro L hL
   obtain ⟨L', rfl, hL'⟩ := hL.uncons (lexOne_equal hr)
   unfold equalArm at h
@@ -99,7 +191,42 @@ theorem equalArm_move {tape : Tape} {parent : Nat} {state : PState} {d dp : Byte
           | ok t2 =>
             simp [hso] at h; subst h
             simp only [onlyEmpties, Bool.and_eq_true, decide_eq_true_eq] at hoe
-            obtain ⟨n, odd, hfl, hodd, hn⟩ := allEmptyPairs_lex _ hoe.2
+            -- the innermost open container is an array whose body ends with `last`
+            have hp0 := tinv_parent_ne ht (Or.inl rfl)
+            obtain ⟨top, hog, hc⟩ := hg
+            generalize hm : t1 ++ [last] = tp at hog
+            have hkey : last.isKey = true ∧ GSeq (t1.drop (parent + 1)) := by
+              cases hog with
+              | root _ => exact absurd rfl hp0
+              | @obj g p pre seg ph below hb hcb hl' hp hbody => exact absurd (Or.inl rfl) hc.1
+              | @arr g p pre seg below hb hcb hl' hp hseg =>
+                rename_i hna hne
+                rcases List.eq_nil_or_concat seg with hs | ⟨seg1, y, hs⟩
+                · subst hs
+                  have := List.append_inj_right' (show t1 ++ [last] = pre ++ [BTok.array g] from hm) (by simp)
+                  simp at this; exact absurd this (hna g)
+                rw [List.concat_eq_append] at hs; subst hs
+                have e1 : t1 ++ [last] = (pre ++ BTok.array g :: seg1) ++ [y] := by simpa using hm
+                have e2 := List.append_inj_left' e1 (by simp)
+                have e3 := List.append_inj_right' e1 (by simp)
+                simp at e3; subst e3; subst e2
+                obtain ⟨hlp, hseg1⟩ := hseg.unsnoc' hne
+                refine ⟨hc.2.2.2 rfl seg1 last rfl hlp, ?_⟩
+                have : (pre ++ BTok.array g :: seg1).drop (parent + 1) = seg1 := by
+                  rw [← hl', List.drop_append]; simp
+                rw [this]; exact hseg1
+            obtain ⟨hlk, hgs⟩ := hkey
+            subst hm
+            obtain ⟨n, hshape⟩ := allEmptyPairs_tok _ hoe.2
+            obtain ⟨odd, hfl, hodd, hn⟩ : ∃ odd, flat (t1.drop (parent + 1)) = pairsLex n ++ odd ∧
+                (odd = [] ∨ ∃ y : BTok, odd = flatten y ∧ y.isPlain = true) ∧ (t1.drop (parent + 1)).length / 2 = n := by
+              rcases hshape with ⟨h1, h2⟩ | ⟨l0, y, h1, h2, h3, h4⟩
+              · exact ⟨[], by simpa using h1, Or.inl rfl, h2⟩
+              · refine ⟨flatten y, by rw [h1]; simp [h2], Or.inr ⟨y, rfl, ?_⟩, h4⟩
+                have hb := hgs.bal
+                rw [h1] at hb
+                simp only [starts_append, ends_append] at hb
+                exact plain_of_counts (by omega)
             obtain ⟨e, he, rfl⟩ := setParentToObject_ok hso
             have hl := getElem?_lt_length he
             -- the part up to and including the parent slot: `A ++ [{]`
@@ -116,7 +243,7 @@ theorem equalArm_move {tape : Tape} {parent : Nat} {state : PState} {d dp : Byte
             refine ⟨[.equal], L', some odd, rfl, hL', ?_, lastLex_other (by simp) (by simp)⟩
             simp only [flat_append, flat_cons, flat_nil, List.append_nil]
             rw [htake, hsplit]
-            exact Move.rewrite (flat (t1.take parent)) n odd last (by omega) hodd
+            exact Move.rewrite (flat (t1.take parent)) n odd last (by omega) hlk hodd
         · simp at h; subst h
           exact ⟨[.equal], L', none, rfl, hL', move_keep (by simp [flatten]), lastLex_other (by simp) (by simp)⟩
   · cases h
@@ -133,7 +260,7 @@ theorem closeTo_kind {tape : Tape} {p : Nat} {T' : Tape} {g : Nat} {s : PState} 
 
 theorem tokenArm_move {tape : Tape} {parent : Nat} {state : PState} {d dp : Bytes} {tok : Nat} {st' : St}
     (hr : readId dp = some (tok, d)) (h : tokenArm false 0 tape parent state d tok = .ok st')
-    (hll : LastLex tape state) :
+    (hll : LastLex tape state) (ht : TInv tape parent state) (hg : GInv tape parent state) :
     StepMove ⟨tape, parent, state, dp⟩ st' := by
   unfold tokenArm at h
   by_cases c1 : tok = L.u32
@@ -244,7 +371,7 @@ theorem tokenArm_move {tape : Tape} {parent : Nat} {state : PState} {d dp : Byte
         rcases hkind with rfl | rfl <;> exact lastLex_other (by simp) (by simp)
   rw [if_neg c10] at h
   by_cases c11 : tok = L.equal
-  · subst c11; rw [if_pos rfl] at h; exact equalArm_move hr h hll
+  · subst c11; rw [if_pos rfl] at h; exact equalArm_move hr h hll ht hg
   rw [if_neg c11] at h
   by_cases c13 : tok = L.i64
   · subst c13
@@ -276,7 +403,8 @@ theorem tokenArm_move {tape : Tape} {parent : Nat} {state : PState} {d dp : Byte
   exact ⟨_, rfl, rfl, hid⟩
 
 
-theorem step_move {st st' : St} (h : step st = .next st') (hll : LastLex st.tape st.state) : StepMove st st' := by
+theorem step_move {st st' : St} (h : step st = .next st') (hll : LastLex st.tape st.state)
+    (ht : TInv st.tape st.parent st.state) (hg : GInv st.tape st.parent st.state) : StepMove st st' := by
   cases hr : readId st.data with
   | none => rw [step_done hr] at h; cases h
   | some p =>
@@ -288,15 +416,27 @@ theorem step_move {st st' : St} (h : step st = .next st') (hll : LastLex st.tape
       simp [hd, Iter.ofExcept] at h; subst h
       unfold dispatch at hd
       split at hd
-      · cases hm : mixedInsert2 st.tape with
-        | error x => simp [hm] at hd
-        | ok t =>
-          simp only [hm] at hd
-          have := tokenArm_move (dp := st.data) hr hd (lastLex_other (by simp) (by simp))
-          intro L hL
-          obtain ⟨L1, L2, o, h1, h2, h3, h4⟩ := this L hL
-          exact ⟨L1, L2, o, h1, h2, by simpa [mixedInsert2_flat hm] using h3, h4⟩
-      · exact tokenArm_move (dp := st.data) hr hd hll
+      · rename_i hs
+        rw [hs] at ht hg
+        obtain ⟨⟨t0, x, y, htape, hx, hy, ho⟩, _, _⟩ := ht
+        rw [htape] at hg
+        have hm := mixedInsert2_snoc2 t0 x y
+        rw [htape, hm] at hd
+        simp only at hd
+        obtain ⟨top, hog, hc⟩ := hg
+        obtain ⟨top', hog', hc'⟩ := openG_mixedInsert2 hx hy hog hc
+        have ht' : TInv (t0 ++ [BTok.mixed, x, y]) st.parent .arrayValueMixed := by
+          refine ⟨?_, by simp, by simp⟩
+          have : t0 ++ [BTok.mixed, x, y] = t0 ++ [BTok.mixed] ++ [x] ++ [y] := by simp
+          simp only; rw [this]
+          exact ((ho.snoc_plain rfl).snoc_plain hx).snoc_plain hy
+        have := tokenArm_move (dp := st.data) hr hd (lastLex_other (by simp) (by simp)) ht' ⟨top', hog', hc'⟩
+        intro L hL
+        obtain ⟨L1, L2, o, h1, h2, h3, h4⟩ := this L hL
+        refine ⟨L1, L2, o, h1, h2, ?_, h4⟩
+        have hf : flat (t0 ++ [BTok.mixed, x, y]) = flat st.tape := by rw [htape]; simp [flatten]
+        rw [hf] at h3; exact h3
+      · exact tokenArm_move (dp := st.data) hr hd hll ht hg
 
 theorem Moves.trans {A B C L1 L2 : List Lx} {o1 o2 : List (List Lx)} (h1 : Moves A L1 B o1) (h2 : Moves B L2 C o2) :
     Moves A (L1 ++ L2) C (o1 ++ o2) := by
@@ -306,7 +446,8 @@ theorem Moves.trans {A B C L1 L2 : List Lx} {o1 o2 : List (List Lx)} (h1 : Moves
     have := Moves.step hm (ih h2)
     simpa [List.append_assoc] using this
 
-theorem reach_moves {a b : St} (h : Reach a b) (hll : LastLex a.tape a.state) :
+theorem reach_moves {a b : St} (h : Reach a b) (hll : LastLex a.tape a.state)
+    (ht : TInv a.tape a.parent a.state) (hg : GInv a.tape a.parent a.state) :
     ∀ L, Lexes a.data L → ∃ L1 L2 odds, L = L1 ++ L2 ∧ Lexes b.data L2 ∧ Moves (flat a.tape) L1 (flat b.tape) odds := by
   obtain ⟨k, hk⟩ := h
   induction k generalizing a with
@@ -316,8 +457,8 @@ theorem reach_moves {a b : St} (h : Reach a b) (hll : LastLex a.tape a.state) :
     | next a' =>
       simp only [stepN, hst] at hk
       intro L hL
-      obtain ⟨L1, L2, o, rfl, h2, h3, h4⟩ := step_move hst hll L hL
-      obtain ⟨M1, M2, odds, rfl, g2, g3⟩ := ih h4 hk L2 h2
+      obtain ⟨L1, L2, o, rfl, h2, h3, h4⟩ := step_move hst hll ht hg L hL
+      obtain ⟨M1, M2, odds, rfl, g2, g3⟩ := ih h4 (step_inv hst ht) (step_ginv hst ht hg) hk L2 h2
       exact ⟨L1 ++ M1, M2, o.toList ++ odds, by simp, g2, Moves.step h3 g3⟩
     | done => simp [stepN, hst] at hk
     | err e => simp [stepN, hst] at hk
@@ -331,7 +472,7 @@ theorem parse_moves (opt : Bool) (data : Bytes) (T : Tape) (h : parse opt data =
     · exact h
     · rwa [parse_true_eq_false] at h
   obtain ⟨r, hr, hreach⟩ := run_false_ok_reach _ _ _ _ h'
-  obtain ⟨L1, L2, odds, rfl, hL2, h3⟩ := reach_moves hreach (lastLex_other (by simp [init]) (by simp [init])) L hL
+  obtain ⟨L1, L2, odds, rfl, hL2, h3⟩ := reach_moves hreach (lastLex_other (by simp [init]) (by simp [init])) (init_inv data) (init_ginv data) L hL
   have : L2 = [] := by
     cases hL2 with
     | done _ => rfl
@@ -362,7 +503,7 @@ theorem Moves.toks_perm {A L C : List Lx} {odds : List (List Lx)} (h : Moves A L
       | keep => simp
       | eqAfterKey A k => simp [Lx.isTok]
       | ghost => simp [Lx.isTok]
-      | rewrite A n odd last hn hodd =>
+      | rewrite A n odd last hn hlk hodd =>
         simp only [List.filter_append, pairsLex_toks, Option.toList_some, List.flatten_cons, List.flatten_nil,
           List.append_nil, List.nil_append]
         simp only [Lx.isTok, List.filter_cons, List.filter_nil, Bool.false_eq_true, if_false, List.append_nil]
@@ -387,7 +528,7 @@ theorem Moves.toks_perm {A L C : List Lx} {odds : List (List Lx)} (h : Moves A L
     exact e1.trans (e2.trans (e3.trans e4))
 
 theorem Moves.odds_shape {A L C : List Lx} {odds : List (List Lx)} (h : Moves A L C odds) :
-    ∀ o ∈ odds, o = [] ∨ ∃ y : BTok, o = flatten y := by
+    ∀ o ∈ odds, o = [] ∨ ∃ y : BTok, o = flatten y ∧ y.isPlain = true := by
   induction h with
   | nil A => simp
   | @step A B C L1 L2 o odds hm _ ih =>
@@ -398,7 +539,7 @@ theorem Moves.odds_shape {A L C : List Lx} {odds : List (List Lx)} (h : Moves A 
       | keep => simp at hx
       | eqAfterKey => simp at hx
       | ghost => simp at hx
-      | rewrite A n odd last hn hodd => simp at hx; subst hx; exact hodd
+      | rewrite A n odd last hn hlk hodd => simp at hx; subst hx; exact hodd
     · exact ih x hx
 
 
@@ -417,7 +558,7 @@ theorem Moves.no_open {A L C : List Lx} {odds : List (List Lx)} (h : Moves A L C
       obtain ⟨h1, h2⟩ := ih hA hL.2
       exact ⟨by simp [h1], h2⟩
     | ghost => exact absurd (by simp) hL.1
-    | rewrite A n odd last hn hodd => exact absurd (by simp) hA
+    | rewrite A n odd last hn hlk hodd => exact absurd (by simp) hA
 
 /-- NON-instance: a tape that silently drops an ordinary scalar — input `a = b`, tape content `[a]` — is not
 explained by any run of moves -/
